@@ -241,10 +241,10 @@ pub fn campaign(ctx: &Ctx, id: &'static str, target: &'static str) {
         eprintln!("[{}] VERIF_FUZZ_S=0: coverage-guided stage skipped", id);
         return;
     }
-    let root = format!("{}/fuzz", crate::engine::VERIF_DIR);
+    let root = format!("{}/fuzz", crate::engine::verif_dir());
     let t0 = std::time::Instant::now();
     let build_log = format!("{}/fuzz/build-{}.log", root, target);
-    let rc = run_cmd(std::process::Command::new("cargo").current_dir(&root).env("CARGO_NET_OFFLINE", "true").args(["+nightly", "fuzz", "build", target]), &build_log);
+    let rc = run_cmd(std::process::Command::new("cargo").current_dir(&root).env("CARGO_NET_OFFLINE", "true").args(["+nightly", "fuzz", "build", "-s", "none", target]), &build_log);
     if rc != Some(0) {
         eprintln!("[{}] cargo fuzz build {} failed (rc {:?}, see {}): the coverage-guided stage is inconclusive", id, target, rc, build_log);
         ctx.note_inconclusive(&format!("cargo fuzz build {} failed", target));
@@ -254,7 +254,7 @@ pub fn campaign(ctx: &Ctx, id: &'static str, target: &'static str) {
     let work = format!("{}/fuzz/corpus-work/{}", root, target);
     let _ = std::fs::remove_dir_all(&work);
     let _ = std::fs::create_dir_all(&work);
-    let committed = format!("{}/corpus/{}", crate::engine::VERIF_DIR, target);
+    let committed = format!("{}/corpus/{}", crate::engine::verif_dir(), target);
     let mut n_seeds = 0;
     if let Ok(rd) = std::fs::read_dir(&committed) {
         for e in rd.flatten() {
@@ -270,7 +270,7 @@ pub fn campaign(ctx: &Ctx, id: &'static str, target: &'static str) {
     }
     let dict = format!("{}/fuzz/{}.dict", root, target);
     let _ = std::fs::write(&dict, dictionary());
-    let art_dir = format!("{}/replays", crate::engine::VERIF_DIR);
+    let art_dir = format!("{}/replays", crate::engine::verif_dir());
     let _ = std::fs::create_dir_all(&art_dir);
     let prefix = format!("{}/{}-fuzz-{}-", art_dir, id, ctx.seed);
     // remove artefacts of earlier campaigns with the same prefix
@@ -397,7 +397,7 @@ pub fn campaign(ctx: &Ctx, id: &'static str, target: &'static str) {
     let label: &'static str = if id == "C01" { "fuzz-corpus:c01_total" } else { "fuzz-corpus:c17_spans" };
     ctx.run_table(&FuzzCorpus("fuzz"), label, cases, false);
     ctx.add_section(json!({
-        "sub": "fuzz", "part": format!("libFuzzer:{}", target), "engine": "cargo-fuzz 0.13 / libFuzzer, -fork, dictionary from the vocabulary",
+        "sub": "fuzz", "part": format!("libFuzzer:{}", target), "engine": "cargo-fuzz 0.13 / libFuzzer (sanitizer none: the library is safe Rust; debug assertions and overflow checks on), -fork, dictionary from the vocabulary",
         "seconds": secs, "jobs": ctx.threads, "seed_inputs": n_seeds, "executions": execs, "edge_coverage": cov, "features": ft,
         "corpus_kept": kept, "crash_artefacts": crashes.len(), "timeout_artefacts": timeouts.len(), "artefacts_not_reproduced": unexplained,
         "exit_code": rc, "wall_s": t0.elapsed().as_secs_f64().round(),
